@@ -702,6 +702,12 @@ func (w *Worker) doTaskAttempt(
 		case RecordFlagNack:
 			err := acker.Nack(ctx, subBatch, t.ID())
 			if err != nil {
+				if _, ok := t.(*ProcessorTask); ok {
+					// A processor error the DLQ did not absorb is fatal, like in
+					// the default engine (stream.ProcessorNode): processors are
+					// deterministic, a restart would fail on the same record again.
+					return cerrors.FatalError(err)
+				}
 				return err
 			}
 		case RecordFlagRetry:
